@@ -746,3 +746,8 @@ for _p, _r in (("C16", "R-C16-forms"), ("C13", "R-C13-radius")):
 _OLD_ST = "        split_branches += split_branch\n        split_types += [type] * num_subbranches"
 P("C16", CU, _OLD_ST, "        split_branches.extend(split_branch)\n        split_types.extend([type] * len(split_branch))")
 B("C16", CU, _OLD_ST, "        split_branches.extend(split_branch)\n        split_types.extend([type])", "R-C16-split")
+# data_set: the handed-in list as `param_state or []`
+_OLD_DS = "            if param_state is not None:\n                param_state += added_param_state\n            else:\n                param_state = added_param_state"
+for _p, _r in (("C10", "R-C10-order"), ("C05", "R-C05-order")):
+    P(_p, BASE, _OLD_DS, "            param_state = (param_state or []) + added_param_state")
+    B(_p, BASE, _OLD_DS, "            param_state = added_param_state + (param_state or [])", _r)
